@@ -78,7 +78,8 @@ class OpAdd(Op):
         target = self.path.parts[-1]
         if isinstance(parent, MutableSequence):
             if obj is UNDEFINED:
-                if target == "-":
+                # "-" and an index equal to the length both mean "append".
+                if target == "-" or target == len(parent):
                     parent.append(self.value)
                 else:
                     raise JSONPatchError("index out of range")
